@@ -167,6 +167,37 @@ def correspond(model_ok, res):
     seen = set()
     dist = {"premise_holds": 0, "premise_fails": 0, "with_negation": 0, "keyerror_cases": 0,
             "default": {}, "leaves_bucket": {}, "known_finding_cases": 0}
+    # call histories: ONE propagator instance per default operation is reused for HIST_LEN calls in a
+    # row (different trees / assignments); every returned pair is kept and re-checked after the whole
+    # history (a result that changes when the instance is used again is an identity fact the value
+    # model of Coq cannot see)
+    HIST_LEN = 5
+    hist = {}          # default class -> {"inst": propagator, "calls": [entry]}
+    dist["histories"] = 0
+    dist["history_calls"] = 0
+
+    def close_history(dflt):
+        h = hist.pop(dflt, None)
+        if not h or not h["calls"]:
+            return
+        dist["histories"] += 1
+        calls = h["calls"]
+        summary = [{"tree": c["tree"], "names": c["names"], "sigma_true": c["sigma_true"]} for c in calls]
+        for idx, c in enumerate(calls):
+            ok_now, ko_now = c["kept"]
+            why = None
+            if (set(ok_now), set(ko_now)) != c["snapshot"]:
+                why = "a kept result changed after later calls on the same propagator instance"
+            elif c["expected"] is not None and (set(ok_now), set(ko_now)) != c["expected"]:
+                why = "a kept result differs from boolean evaluation after the whole history"
+            if why:
+                res.failures.append(({"why": why, "default": dflt.__name__, "history": summary,
+                                      "corrupted_index": idx,
+                                      "right_after_call": [sorted(map(list, x)) for x in c["snapshot"]],
+                                      "after_history": [sorted(map(list, ok_now)), sorted(map(list, ko_now))]},
+                                     None))
+                break
+
     for ti, tree in enumerate(trees):
         desc = gentree.describe(tree)
         try:
@@ -241,6 +272,33 @@ def correspond(model_ok, res):
                         dist["known_finding_cases"] += 1
                     res.failures.append((dict(payload, why=why, ok=sorted(map(list, ok)),
                                               ko=sorted(map(list, ko))), fid))
+                # ---- the same call on the reused instance of this default operation
+                h = hist.setdefault(dflt, {"inst": naming.MatchingPropagator(dflt), "calls": []})
+                t_h = copy.deepcopy(tree)
+                M_h, O_h = set(M), (frozenset(O) if r.random() < 0.3 else set(O))
+                kept = h["inst"](t_h, M_h, O_h)
+                snapshot = (set(kept[0]), set(kept[1]))
+                dist["history_calls"] += 1
+                if lib.g_item(t_h) != g_tree or M_h != M or O_h != O:
+                    res.failures.append((dict(payload, why="propagation modified its inputs (reused instance)"),
+                                         None))
+                if snapshot != (set(ok), set(ko)):
+                    res.failures.append((dict(payload, why="a reused propagator instance answers differently "
+                                              "from a fresh one", call_index=len(h["calls"]),
+                                              history=[{"tree": c["tree"], "names": c["names"]}
+                                                       for c in h["calls"]],
+                                              fresh=[sorted(map(list, ok)), sorted(map(list, ko))],
+                                              reused=[sorted(map(list, x)) for x in snapshot]), None))
+                if kept[0] is M_h or kept[0] is O_h or kept[1] is M_h or kept[1] is O_h:
+                    res.failures.append((dict(payload, why="a result set is one of the input collections"), None))
+                expected = None
+                if prem and not empty_all(T, tree, dor):
+                    expected = (exp_ok, set(cn) - exp_ok)
+                h["calls"].append({"tree": desc[:600], "names": sorted(names), "kept": kept,
+                                   "sigma_true": payload["sigma_true"], "snapshot": snapshot,
+                                   "expected": expected})
+                if len(h["calls"]) >= HIST_LEN:
+                    close_history(dflt)
                 dist["with_negation"] += has_neg
                 dist["default"][dflt.__name__] = dist["default"].get(dflt.__name__, 0) + 1
                 b = len(leaves) if len(leaves) < 3 else min(len(leaves), 12) // 3 * 3
@@ -250,6 +308,8 @@ def correspond(model_ok, res):
                     lib.g_list(["(%s, %s)" % (lib.g_str(k), lib.g_path(v)) for k, v in m.items()]),
                     g_paths(M), g_paths(O), g_paths(ok), g_paths(ko)))
                 payloads.append(payload)
+    for dflt in list(hist):
+        close_history(dflt)
     # canary: a deliberately corrupted expectation must be reported by the comparison
     canary_tree = parser.parse("a AND b")
     cases.append("(%s, COrOperation, [], [], Some ([], []), ([[0]%%nat], [[]%%nat; [1]%%nat]))"
@@ -262,7 +322,8 @@ def correspond(model_ok, res):
                 "random truth assignment to every leaf, reported names = named elements whose covered term is "
                 "true (15%: arbitrary names), matching_from_names, defaults Or / And (10%: another class); "
                 "non-trivial = distinct (tree, assignment, default) satisfying the premise with an operation "
-                "of at least 2 operands")
+                "of at least 2 operands; every call is also replayed on a propagator instance reused for 5 "
+                "calls in a row (per default), kept results re-checked after the history")
     res.samples = payloads[40:46]
     res.distribution = dist
     if model_ok:
@@ -305,7 +366,7 @@ SPEC = {
     "module": "C16",
     "theorems": ["C16_classified_once", "C16_subexpressions_are_paths", "C16_matching_iff_true_partial",
                  "C16_matching_iff_true_refuted", "C16_matching_from_names", "C16_named_elements",
-                 "C16_end_to_end"],
+                 "C16_end_to_end", "C16_calls_independent"],
     "correspond": correspond,
     "statement": "every sub-expression (not below a range/fuzzy/proximity) is classified exactly once, for any "
                  "inputs; under the premise `reported` (named elements without an operation beneath are in "
@@ -326,5 +387,12 @@ SPEC = {
     ],
     "assumptions": ["trees contain only luqum.tree classes",
                     "truth assignments are per occurrence (per path) of a leaf",
-                    "matching / other are sets of tuples; default_operation is a class object"],
+                    "matching / other are sets of tuples; default_operation is a class object",
+                    "result-object aliasing (the sets returned by one call being the objects a later call on "
+                    "the same MatchingPropagator instance clears/refills, or being the input collections) is an "
+                    "identity fact outside the value model (propagate is a pure function, see "
+                    "C16_calls_independent); it is checked by the harness: histories of 5 calls on one "
+                    "instance per default operation, every returned pair kept and re-checked after the history "
+                    "against its own snapshot and against boolean evaluation, reused instance == fresh "
+                    "instance on every call, inputs not mutated"],
 }
